@@ -157,6 +157,7 @@ inductive Obs where
   | select (b : Blk) (w : Tmo)     -- one select() call
   | lockTry                        -- lock.acquire(blocking=False)
   | lockWait (w : Tmo)             -- lock.acquire(True, w)  /  `with lock:` (no timeout)
+  | lockRelease                    -- lock.release() when the `with lock_with_timeout(...)` block is left
   deriving Repr, DecidableEq
 
 /-- selector script, clock, accounting of where the time went, bytes on the wire, log (newest first) -/
